@@ -99,6 +99,7 @@ func (db *LDBDatabase) Put(key []byte, value []byte) error {
 	if !db.inited {
 		return ErrLDBInit
 	}
+	verifOnWrite("put", key, len(value))
 	return db.db.Put(key, value, nil)
 }
 
@@ -129,6 +130,7 @@ func (db *LDBDatabase) Delete(key []byte) error {
 	if !db.inited {
 		return ErrLDBInit
 	}
+	verifOnWrite("delete", key, 0)
 	return db.db.Delete(key, nil)
 }
 
@@ -178,6 +180,7 @@ func (b *ldbBatch) Put(key, value []byte) error {
 
 func (b *ldbBatch) Write() error {
 	b.logger.Debugf("batchWrite. length: %d ", b.size)
+	verifOnWrite("batch", nil, b.size)
 	return b.db.Write(b.b, nil)
 }
 
